@@ -1,7 +1,7 @@
 (* C10 property theorems: statements only, each closed by `exact`, with Print Assumptions. *)
 From Coq Require Import ZArith QArith List Bool.
 From Coq Require PrimFloat.
-From QE Require Import Base.Num C10.Model C10.Proofs C10.Proofs2 C10.Proofs3 C10.Findings.
+From QE Require Import Base.Num C10.Model C10.Proofs C10.Proofs2 C10.Proofs3 C10.Proofs4 C10.Findings.
 Import ListNotations.
 Open Scope Z_scope.
 
@@ -162,6 +162,104 @@ Theorem C10_sparse_step_exact : forall rows (row : list (Z * Q)) u k,
 Proof. exact sparse_step_exact. Qed.
 Print Assumptions C10_sparse_step_exact.
 
+(* ---- quantecon.random.draw, mc_sample_path, simulate with state_values, DiscreteRV.
+   Generic statements (any arithmetic with the stated facts; proved for Q here, for binary64 in PropsFloat.v). *)
+Theorem C10_qe_draw_valid : forall (T : Type) (N : Num T) (scal_ok : T -> Prop),
+  (forall u c, scal_ok c -> unitv u -> nltb (nmul u c) c = true) ->
+  (forall u c, scal_ok c -> unitv u -> nltb (nmul u c) nzero = false) ->
+  (forall x p v, nleb nzero p = true -> nltb nzero p = false -> nltb v (nadd x p) = nltb v x) ->
+  (forall p v, nleb nzero p = true -> nltb nzero p = false -> nltb v p = true -> nltb v nzero = true) ->
+  forall q us : list T, row_ok scal_ok q -> Forall unitv us ->
+    exists ks, qe_draw (cumsum q) us = Ok ks /\ Forall2 (fun u k => step_post q u k) us ks.
+Proof. intros T N. exact (@qe_draw_valid T N). Qed.
+Print Assumptions C10_qe_draw_valid.
+
+(* mc_sample_path: X_0 = init, or drawn from the distribution psi with the FIRST uniform as its inverse-CDF image;
+   the rest of the stream drives a valid path from X_0 *)
+Theorem C10_mc_sample_path_exact : forall (P : list (list Q)) (init : Z + list Q) ts stream,
+  matrix_ok posQ P -> 0 < zlen P -> 1 <= ts -> Forall unitv stream ->
+  match init with inl x0 => 0 <= x0 < zlen P | inr psi => row_ok posQ psi /\ zlen psi = zlen P /\ stream <> [] end ->
+  exists x0 s row,
+    mc_sample_path (Dense P) init ts stream = Ok row /\
+    match init with
+    | inl x => x0 = x /\ s = stream
+    | inr psi => exists u0, stream = u0 :: s /\ step_post psi u0 x0
+    end /\
+    valid_path P x0 (firstn (Z.to_nat (ts - 1)) s) row.
+Proof. exact mc_sample_path_exact. Qed.
+Print Assumptions C10_mc_sample_path_exact.
+
+(* simulate with state_values: the result is state_values[X] for the index paths X of simulate_indices started at
+   the FIRST index holding each requested value; a value that does not occur is a ValueError *)
+Theorem C10_simulate_sv_int : forall (T : Type) (N : Num T) (c : chain) sv ts v nr drawn (stream : list T),
+  simulate_sv c sv ts (IInt v) nr drawn stream =
+  match index_of sv v 0 with
+  | Ok i => match simulate_indices c ts (IInt i) nr drawn stream with
+            | Ok (d, X) => Ok (d, map (map (fun s => nth (Z.to_nat s) sv 0)) X)
+            | OOB => OOB | ValueErr => ValueErr | NoFuel => NoFuel
+            end
+  | OOB => OOB | ValueErr => ValueErr | NoFuel => NoFuel
+  end.
+Proof. intros T N. exact (@simulate_sv_int T N). Qed.
+Print Assumptions C10_simulate_sv_int.
+
+Theorem C10_simulate_sv_arr : forall (T : Type) (N : Num T) (c : chain) sv ts l nr drawn (stream : list T) li,
+  mapM (fun v => index_of sv v 0) l = Ok li ->
+  Forall2 (fun v i => 0 <= i < zlen sv /\ nth (Z.to_nat i) sv 0 = v) l li /\
+  simulate_sv c sv ts (IArr l) nr drawn stream =
+  match simulate_indices c ts (IArr li) nr drawn stream with
+  | Ok (d, X) => Ok (d, map (map (fun s => nth (Z.to_nat s) sv 0)) X)
+  | OOB => OOB | ValueErr => ValueErr | NoFuel => NoFuel
+  end.
+Proof. intros T N. exact (@simulate_sv_arr T N). Qed.
+Print Assumptions C10_simulate_sv_arr.
+
+Theorem C10_simulate_sv_none : forall (T : Type) (N : Num T) (c : chain) sv ts nr drawn (stream : list T),
+  simulate_sv c sv ts INone nr drawn stream =
+  match simulate_indices c ts INone nr drawn stream with
+  | Ok (d, X) => Ok (d, map (map (fun s => nth (Z.to_nat s) sv 0)) X)
+  | OOB => OOB | ValueErr => ValueErr | NoFuel => NoFuel
+  end.
+Proof. intros T N. exact (@simulate_sv_none T N). Qed.
+Print Assumptions C10_simulate_sv_none.
+
+Theorem C10_index_of_spec : forall sv v i k, index_of sv v i = Ok k ->
+  i <= k < i + zlen sv /\ nth (Z.to_nat (k - i)) sv 0 = v /\
+  forall j, (j < Z.to_nat (k - i))%nat -> nth j sv 0 <> v.
+Proof. exact index_of_spec. Qed.
+Print Assumptions C10_index_of_spec.
+
+(* DiscreteRV as an object: after ANY sequence of q re-assignments and draws, every draw returns, for each of its
+   uniforms, an index k in range, of positive probability under the CURRENT q, with Q[j] <= u*min(Q[-1],1) for all
+   j < k and not Q[k] <= u*min(Q[-1],1)  (Q = cumsum of the current q).  Generic, then exact. *)
+Theorem C10_drv_run_valid : forall (T : Type) (N : Num T) (scal_ok : T -> Prop),
+  (forall u c, scal_ok c -> unitv u -> nleb c (nmul u (drv_scale c)) = false) ->
+  (forall u c, scal_ok c -> unitv u -> nleb nzero (nmul u (drv_scale c)) = true) ->
+  (forall x p v, nleb nzero p = true -> nltb nzero p = false -> nleb (nadd x p) v = nleb x v) ->
+  (forall p v, nleb nzero p = true -> nltb nzero p = false -> nleb p v = nleb nzero v) ->
+  forall (ops : list (@drv_op T)) q0,
+    row_ok scal_ok q0 -> Forall (op_ok scal_ok) ops -> drv_valid q0 ops (drv_run q0 ops).
+Proof. intros T N. exact (@drv_run_valid T N). Qed.
+Print Assumptions C10_drv_run_valid.
+
+Theorem C10_drv_run_exact : forall (ops : list (@drv_op Q)) q0,
+  row_ok posQ q0 -> Forall (op_ok posQ) ops -> drv_valid q0 ops (drv_run q0 ops).
+Proof. exact drv_run_exact. Qed.
+Print Assumptions C10_drv_run_exact.
+
+(* exact reading of one draw: positive probability and S_{k-1} <= u*min(S,1) < S_k; any non-negative q with
+   positive sum is admissible *)
+Theorem C10_draw_post_exact : forall (q : list Q) u k,
+  (forall p, In p q -> (0 <= p)%Q) -> unit_interval u -> draw_post q u k ->
+  (exists p, nth_error q (Z.to_nat k) = Some p /\ (0 < p)%Q) /\
+  (qsum (firstn (Z.to_nat k) q) <= u * Qminmax.Qmin (qsum q) 1 < qsum (firstn (S (Z.to_nat k)) q))%Q.
+Proof. exact draw_post_Q. Qed.
+Print Assumptions C10_draw_post_exact.
+
+Theorem C10_row_ok_posQ : forall q : list Q, (forall p, In p q -> (0 <= p)%Q) -> (0 < qsum q)%Q -> row_ok posQ q.
+Proof. exact row_ok_posQ. Qed.
+Print Assumptions C10_row_ok_posQ.
+
 (* ---- the pinned code refutes the property (findings D2 and D10, both repaired in /repo) *)
 Theorem C10_path_in_range_float_refuted :
   exists (P : list (list PrimFloat.float)) (u : PrimFloat.float),
@@ -229,3 +327,9 @@ Proof.
   destruct Hrow as [<-|[<-|[<-|[]]]]; (split; [|split; [vm_compute; reflexivity|repeat constructor; vm_compute; congruence]]);
     intros p Hp; simpl in Hp; repeat (destruct Hp as [<-|Hp]; [vm_compute; discriminate|]); destruct Hp.
 Qed.
+
+(* a DiscreteRV object: q re-assigned to a vector summing to 3/5 (scale 3/5) and to one summing to 2 (scale 1) *)
+Example ex_drv_run :
+  drv_run [1#2; 1#2]%Q [DDraw [0; 3#4]%Q; DSetQ [3#10; 3#10]%Q; DDraw [99#100; 1#2]%Q; DSetQ [1; 0; 1]%Q; DDraw [1#2; 999#1000]%Q]
+  = [Ok [0; 1]; Ok [1; 1]; Ok [0; 0]].
+Proof. vm_compute. reflexivity. Qed.
